@@ -146,8 +146,12 @@ class BaseDB(object):
 
         self.lock.acquire()
         try:
-            usernames = self.db.keys()
+            # copy under the lock: a dict view changes with the dict
+            usernames = list(self.db.keys())
         finally:
             self.lock.release()
-        usernames = [u for u in usernames if not u.startswith("--Reserved--")]
+        # on-disk databases return the keys as bytes
+        usernames = [u for u in usernames if not
+                     u.startswith(b"--Reserved--" if isinstance(u, bytes)
+                                  else "--Reserved--")]
         return usernames
